@@ -25,7 +25,13 @@ type c19X struct {
 }
 
 var c19Pos = []string{"before-helo", "greeted", "after-mail", "after-bdat-chunk", "after-transaction", "inside-auth-exchange", "after-chunk-refused-by-backend"}
-var c19Kinds = []string{"boundary-line", "endless-line", "short-strings", "binary", "error-threshold"}
+var c19Kinds = []string{"boundary-line", "endless-line", "short-strings", "binary", "error-threshold", "argument-fragments"}
+
+// Fragments of MAIL/RCPT arguments: well-formed, cut short, empty, with escapes that
+// end early or name nothing - every extension the server can be configured with.
+var c19Paths = []string{"<ok-f@a.example>", "<>", "<ok-f@a.example", "ok-f@a.example", "<@a.example,@b.example:ok-f@c.example>", "<\"quoted f\"@a.example>", "<\"unterminated@a.example>", "<ok f@a.example>", "<ok-f@[192.0.2.1]>", "<ok-f@[IPv6:2001:db8::1]>", "<ok-f@[>", "<\"\\\"\"@a.example>", "<", "", "<<ok-f@a.example>>", "<ok-f@a.example>>", "<ok-f@>", "<@a.example>", "<ok-f@a.example\t>", "<\xc3\xa9@a.example>", "<ok-f@\xc3\xa9.example>"}
+var c19MailParams = []string{"SIZE=100", "SIZE=", "SIZE=abc", "SIZE=-1", "SIZE=18446744073709551616", "BODY=7BIT", "BODY=8BITMIME", "BODY=BINARYMIME", "BODY=", "BODY=x", "SMTPUTF8", "SMTPUTF8=1", "REQUIRETLS", "RET=FULL", "RET=HDRS", "RET=", "RET=x", "ENVID=abc", "ENVID=a+2Bb", "ENVID=a+", "ENVID=a+2", "ENVID=a+GG", "ENVID=", "AUTH=<>", "AUTH=a+40b.example", "AUTH=+", "AUTH=", "AUTH=<", "=", "=x", "X", "X=", "NOTIFY=NEVER", "size=100", "Size=100 SIZE=200"}
+var c19RcptParams = []string{"NOTIFY=NEVER", "NOTIFY=SUCCESS,FAILURE,DELAY", "NOTIFY=", "NOTIFY=NEVER,SUCCESS", "NOTIFY=x", "NOTIFY=,", "NOTIFY", "ORCPT=rfc822;a@b.example", "ORCPT=rfc822;a+40b.example", "ORCPT=rfc822;a+", "ORCPT=rfc822;a+4", "ORCPT=rfc822;a+GG", "ORCPT=rfc822;", "ORCPT=;a", "ORCPT=rfc822", "ORCPT=", "ORCPT=utf-8;a@b.example", "ORCPT=utf-8;caf\\x{E9}@b.example", "ORCPT=utf-8;caf\\x{e9}@b.example", "ORCPT=utf-8;u\\x{@b.example", "ORCPT=utf-8;u\\x{", "ORCPT=utf-8;u\\x{}", "ORCPT=utf-8;u\\x{41", "ORCPT=utf-8;u\\x{110000}", "ORCPT=utf-8;u\\x{FFFFFFFFFFFFFFFFFF}", "ORCPT=utf-8;u\\x{D800}", "ORCPT=utf-8;u\\x", "ORCPT=utf-8;u\\", "ORCPT=utf-8;", "ORCPT=UTF-8;x", "ORCPT=utf-8;a+3Db", "ORCPT=utf-8;a=b", "ORCPT=x400;whatever", "RRVS=2014-04-03T23:01:00Z", "RRVS=2014-04-03T23:01:00Z;C", "RRVS=2014-04-03T23:01:00Z;R", "RRVS=2014-04-03T23:01:00Z;", "RRVS=", "RRVS=x", "RRVS=;", "RRVS=9999-99-99T99:99:99Z", "X=", "=", "SIZE=1"}
 
 // c19Prefix builds the conversation prefix for a position and returns the
 // number of replies it produces.
@@ -99,7 +105,7 @@ func genC19(t *Tape, tier string) *Scenario {
 	sc.Srv.LMTP = false
 	x := &c19X{ErrAt: -1}
 	sc.X = x
-	x.Kind = t.Named("c19kind", 5)
+	x.Kind = t.Named("c19kind", 6)
 	var cp ConnBackendPlan
 	steps := []Step{{Kind: kGreetWait, Wait: 1}}
 	lock := t.Bool()
@@ -203,6 +209,44 @@ func genC19(t *Tape, tier string) *Scenario {
 			}
 		}
 		steps = append(steps, Step{Kind: kGarbage, Data: b, Segs: drawSegs(t, n, nil)}, Step{Kind: kQuit, Data: []byte("\r\nQUIT\r\n")})
+	case 5:
+		// every extension on: each parameter reaches its parser
+		sc.Srv.UTF8, sc.Srv.BinaryMIME, sc.Srv.DSN, sc.Srv.RRVS = true, true, true, true
+		if sc.Srv.MaxLine != 0 && sc.Srv.MaxLine < 2000 {
+			sc.Srv.MaxLine = 2000
+		}
+		x.Pos = 1
+		x.Pre = c19Prefix(t, sc, x.Pos, &steps, &cp)
+		frag := t.Named("c19frag", len(c19Paths)+len(c19MailParams)+len(c19RcptParams))
+		mailLine, rcptLine := "MAIL FROM:<ok-s@a.example>", "RCPT TO:<ok-r@b.example>"
+		switch {
+		case !t.HasOver("c19frag"):
+			// drawn: a path and up to three parameters for each command
+			mailLine = "MAIL FROM:" + c19Paths[t.Intn(len(c19Paths))]
+			for i, n := 0, t.Intn(4); i < n; i++ {
+				mailLine += " " + c19MailParams[t.Intn(len(c19MailParams))]
+			}
+			rcptLine = "RCPT TO:" + c19Paths[t.Intn(len(c19Paths))]
+			for i, n := 0, t.Intn(4); i < n; i++ {
+				rcptLine += " " + c19RcptParams[t.Intn(len(c19RcptParams))]
+			}
+		case frag < len(c19Paths):
+			if t.Bool() {
+				mailLine = "MAIL FROM:" + c19Paths[frag]
+			} else {
+				rcptLine = "RCPT TO:" + c19Paths[frag]
+			}
+		case frag < len(c19Paths)+len(c19MailParams):
+			mailLine += " " + c19MailParams[frag-len(c19Paths)]
+		default:
+			rcptLine += " " + c19RcptParams[frag-len(c19Paths)-len(c19MailParams)]
+		}
+		x.Lines = []string{mailLine, rcptLine}
+		steps = append(steps, Step{Kind: kGarbage, Data: []byte(mailLine + "\r\n"), Wait: w()},
+			Step{Kind: kGarbage, Data: []byte("MAIL FROM:<ok-s2@a.example>\r\n"), Wait: w()}, // in case the first was refused
+			Step{Kind: kGarbage, Data: []byte(rcptLine + "\r\n"), Wait: w()},
+			Step{Kind: kMarker, Data: []byte("NOOP\r\n"), Wait: w()}, Step{Kind: kQuit, Data: []byte("QUIT\r\n"), Wait: w()})
+		x.Judged = true
 	case 4:
 		x.Pos = 1 + t.Intn(2)
 		x.Pre = c19Prefix(t, sc, x.Pos, &steps, &cp)
@@ -256,7 +300,7 @@ func checkC19(sc *Scenario, h *History) []Violation {
 	x := sc.X.(*c19X)
 	ch := h.Conns[0]
 	wit := fmt.Sprintf("kind=%s limit=%d len=%d form=%d pos=%s", c19Kinds[x.Kind], x.Limit, x.Len, x.Form, c19Pos[x.Pos])
-	if x.Kind == 2 || x.Kind == 4 {
+	if x.Kind == 2 || x.Kind == 4 || x.Kind == 5 {
 		wit += fmt.Sprintf(" lines=%q", x.Lines)
 	}
 	// no recovered panic, no deadlock, nobody left behind
@@ -341,6 +385,12 @@ func checkC19(sc *Scenario, h *History) []Violation {
 				break
 			}
 		}
+	case 5:
+		// whatever the arguments were: five replies, the NOOP answered 250, QUIT 221, nothing closed early
+		want := x.Pre + 5
+		if len(replies) != want || replies[want-2].Code != 250 || replies[want-1].Code != 221 {
+			out = append(out, Violation{Rule: "C19.arguments", Detail: fmt.Sprintf("MAIL/RCPT arguments built from fragments: expected %d replies ending in 250 (NOOP) and 221 (QUIT), got %s", want, strings.Join(codes, " ")), Witness: wit})
+		}
 	case 4:
 		// reference error counter over the generated lines
 		if x.WriteFault {
@@ -403,6 +453,14 @@ func classifyC19(sc *Scenario, h *History, st *Stats) string {
 		if x.Pos == 3 || x.Pos == 6 {
 			st.Probes["endless_line_after_bdat_chunk"]++
 		}
+	case 5:
+		st.Probes["mail_rcpt_arguments_from_fragments"]++
+		for _, e := range h.Events {
+			if e.Kind == "Rcpt" && e.Done {
+				st.Probes["fragment_arguments_accepted_by_parser"]++
+				break
+			}
+		}
 	case 4:
 		if x.ErrAt >= 0 {
 			st.Probes["error_threshold_reached"]++
@@ -429,7 +487,7 @@ func segKey(sc *Scenario) string {
 func init() {
 	register(&Property{
 		ID: "C19", Level: "exploration",
-		Rule:     "raw driver sends (0) a probe line of length limit-2..limit+3, limit+50, 2*limit (CRLF included; NOOP padded or MAIL padded with spaces) for limits 64/200/2000 at seven conversation positions (after a BDAT chunk - lock-step or in the chunk's own segment -, after a chunk the backend refused, inside an AUTH exchange where the line is the base64 response to a 334, ...), whole or cut so that the limit is crossed inside one segment or across segments; (1) an endless LF-free stream of 70000 octets at four positions including after a BDAT chunk; (2) every string of length <= 4 over {NUL,CR,LF,SP,A,:,<} as a command line, repeated 1-4 times; (3) seeded binary; (4) mixes of valid and malformed commands around the fourth error, checked against a reference error counter. Every case is non-trivial by construction; distinct by (kind, limit, length, form, position, lines, segmentation). Length limit+1 is generated but not judged. The error flood also comes from a peer that does not take the replies (reply writes fail, or block until WriteTimeout), with a sentinel command behind it.",
+		Rule:     "raw driver sends (0) a probe line of length limit-2..limit+3, limit+50, 2*limit (CRLF included; NOOP padded or MAIL padded with spaces) for limits 64/200/2000 at seven conversation positions (after a BDAT chunk - lock-step or in the chunk's own segment -, after a chunk the backend refused, inside an AUTH exchange where the line is the base64 response to a 334, ...), whole or cut so that the limit is crossed inside one segment or across segments; (1) an endless LF-free stream of 70000 octets at four positions including after a BDAT chunk; (2) every string of length <= 4 over {NUL,CR,LF,SP,A,:,<} as a command line, repeated 1-4 times; (3) seeded binary; (4) mixes of valid and malformed commands around the fourth error, checked against a reference error counter; (5) MAIL and RCPT arguments built from fragments - paths (quoted, source-routed, literal, unterminated, doubled brackets, 8-bit) and parameters of every extension (SIZE, BODY, SMTPUTF8, REQUIRETLS, RET, ENVID, AUTH, NOTIFY, ORCPT rfc822/utf-8 with escapes cut short, RRVS), each alone (systematic) and in drawn combinations, with all extensions enabled: no panic, five replies, the connection stays usable. Every case is non-trivial by construction; distinct by (kind, limit, length, form, position, lines, segmentation). Length limit+1 is generated but not judged. The error flood also comes from a peer that does not take the replies (reply writes fail, or block until WriteTimeout), with a sentinel command behind it.",
 		Gen:      genC19,
 		Check:    checkC19,
 		Classify: classifyC19,
@@ -451,6 +509,11 @@ func init() {
 					}
 				}
 			}
+			for r := 0; r < 4; r++ {
+				for f := 0; f < len(c19Paths)+len(c19MailParams)+len(c19RcptParams); f++ {
+					out = append(out, map[string]int{"c19kind": 5, "c19frag": f})
+				}
+			}
 			nstr := 400
 			if tier == "thorough" {
 				nstr = 2800
@@ -465,7 +528,7 @@ func init() {
 		Real:        []string{"smtp.Server.Serve/handleConn", "smtp.Conn command loop, protocolError, panic recovery", "lineLimitReader", "parseCmd and argument parsers", "net/textproto", "bufio"},
 		Stub:        []string{"net.Listener (SimListener)", "net.Conn (SimConn; counts the octets the server pulls)", "Backend/Session (SimBackend)", "clock (synctest)", "SMTP client (raw driver)", "Server.ErrorLog (recording logger)"},
 		Assumptions: []string{"only unknown verbs and lines not of the shape VERB [SP args] are used as 'unrecognised or malformed'; argument-level syntax errors are counted neither way", "an unrecovered panic kills the worker process and is reported by verifctl as a process-crash violation"},
-		Required:    []string{"endless_line_after_bdat_chunk", "probe_after_chunk_refused_by_backend", "probe_line_in_the_same_segment_as_a_chunk", "limit_crossed_across_segments", "limit_crossed_inside_one_segment", "error_threshold_reached", "line_len_limit+2", "line_len_limit+0", "error_flood_while_reply_writes_fail"},
+		Required:    []string{"endless_line_after_bdat_chunk", "probe_after_chunk_refused_by_backend", "probe_line_in_the_same_segment_as_a_chunk", "limit_crossed_across_segments", "limit_crossed_inside_one_segment", "error_threshold_reached", "line_len_limit+2", "line_len_limit+0", "error_flood_while_reply_writes_fail", "mail_rcpt_arguments_from_fragments", "fragment_arguments_accepted_by_parser"},
 		QuickRuns:   120000, ThoroughRuns: 3000000,
 	})
 }
